@@ -23,7 +23,7 @@ PROFILES = {
     # what the property at hand allows
     "optimizer": dict(windows=True, subqueries=True, any_all=True, full_join=True, setops=True, ctes=True, derived=True, limit=True, text_ops=True, distinct=True, group=True, setop_all=True),
     "executor": dict(explicit_nulls=True, windows=False, subqueries=True, any_all=False, full_join=True, setops=True, ctes=True, derived=True, limit=True, text_ops=False, distinct=True, group=True, setop_all=True),
-    "common": dict(windows=False, subqueries=True, any_all=False, full_join=True, setops=True, ctes=True, derived=True, limit=True, text_ops=True, distinct=True, group=True, setop_all=False),
+    "common": dict(nullfuncs=True, windows=False, subqueries=True, any_all=False, full_join=True, setops=True, ctes=True, derived=True, limit=True, text_ops=True, distinct=True, group=True, setop_all=False),
     "lineage": dict(windows=False, subqueries=False, any_all=False, full_join=False, setops=True, ctes=True, derived=True, limit=False, text_ops=True, distinct=False, group=False, setop_all=True),
 }
 
@@ -99,6 +99,10 @@ class Q:
                 self.f.add("length")
                 return f"LENGTH({t})"
         if k == 11:
+            if self.p.get("nullfuncs") and self.b():
+                fn = self.pick(("IFNULL", "NULLIF"))
+                self.f.add(fn.lower())
+                return f"{fn}({self.int_expr(scope, d - 1)}, {self.int_expr(scope, d - 1)})"
             self.f.add("abs")
             return f"ABS({self.int_expr(scope, d - 1)})"
         return c if c is not None else "1"
@@ -134,11 +138,18 @@ class Q:
         if k < 9:
             self.f.add("and-or")
             return f"({self.bool_expr(scope, d - 1, allow_sub)} {self.pick(('AND', 'OR'))} {self.bool_expr(scope, d - 1, allow_sub)})"
-        if k == 9:
+        if k == 9 or (k == 8 and self.b()):
             self.f.add("not")
+            if self.b():
+                # NOT over a connector with a nullable operand: distinguishes NULL from FALSE inside WHERE
+                return f"NOT ({self.bool_expr(scope, 0, False)} {self.pick(('AND', 'OR'))} {self.bool_expr(scope, 0, False)})"
             return f"NOT ({self.bool_expr(scope, d - 1, allow_sub)})"
         if k == 10:
             self.f.add("is-null")
+            if self.b(1, 3):
+                # three-valued result of a connector observed directly
+                self.f.add("connector-is-null")
+                return f"({self.bool_expr(scope, 0, False)} {self.pick(('AND', 'OR'))} {self.bool_expr(scope, 0, False)}) IS {'NOT ' if self.b() else ''}NULL"
             c = self.col(scope, self.pick(("int", "text"))) or "1"
             return f"{c} IS {'NOT ' if self.b() else ''}NULL"
         if k == 11:
@@ -279,7 +290,7 @@ class Q:
                     outs.append((self.text_expr(scope, min(d + 1, 2)), "text"))
                 elif k == 8 and self.p["windows"]:
                     self.f.add("window")
-                    part = self.col(scope, self.pick(("int", "text")))
+                    part = self.col(scope, self.pick(("int", "text"))) or self.col(scope, "int") or self.col(scope, "text") or "1"
                     if self.b():
                         arg = self.col(scope, "int") or "1"
                         outs.append((f"{self.pick(('SUM', 'COUNT', 'MIN', 'MAX'))}({arg}) OVER (PARTITION BY {part})", "int"))
@@ -307,6 +318,11 @@ class Q:
         sql = f"SELECT {distinct}{proj} FROM {frm}{where}{tail}"
         cols = [(n, "int" if t == "float" else t) for n, (_, t) in zip(names, outs)]
         self.last_types = [t for _, t in outs]
+        if nested and self.p["limit"] and self.b(1, 3):
+            # a derived table / CTE that keeps only the first rows under a total order (guards against pushing predicates below LIMIT)
+            self.f.add("nested-limit")
+            self.f.add("limit")
+            sql += " ORDER BY " + ", ".join(f"o{i}" for i in range(len(outs))) + f" LIMIT {self.i(1, 3)}"
         return sql, cols, False
 
     def order_limit(self, ncols, allow_limit=True):
